@@ -254,6 +254,10 @@ def gen_world(rng, profile):
     n = rng.choice([1, 2, 2, 3])
     collide = profile != "dogpile" and rng.random() < 0.35
     uris = gen_uri_set(rng, n, collide)
+    # dogpile.cache: storage is per region (one per template here), not per cache id, so worlds whose cache ids
+    # collide are not generated for it (the model keys the store by cache id)
+    while profile == "dogpile" and len({re.sub(r"\W", "_", "".join(u)) for u in uris}) < len(uris):
+        uris = gen_uri_set(rng, n, False)
     tmpls = [gen_template(rng, u, profile, i + 1) for i, u in enumerate(uris)]
     # calls across templates: a def of a later template through <%namespace>, or <%include> of a later template (never
     # between templates whose cache ids collide: a section could then reach a section with its own key, see gen_template)
@@ -785,6 +789,19 @@ def replay_file(run, path):
     return {"rule": "one stored history re-recorded from real templates and validated against Trace_Cache.tla", "exhaustive": False}
 
 
+def installed(profile):
+    """Beaker / dogpile.cache are optional third-party backends ("when installed")."""
+    import importlib
+    mod = {"beaker-mem": "beaker.cache", "beaker-file": "beaker.cache", "dogpile": "dogpile.cache"}.get(profile)
+    if mod is None:
+        return True
+    try:
+        importlib.import_module(mod)
+        return True
+    except ImportError:
+        return False
+
+
 def check(run):
     if getattr(run, "replay_path", None):
         return replay_file(run, run.replay_path)
@@ -800,11 +817,22 @@ def check(run):
     mcw = mc_worlds() + (mc_worlds_more() if thorough else [])
     pm = progs_module(mcw)
     small_ops = ["render", "invbody", "invdef", "invclosure", "toggle"]
-    d_main = 6 if thorough else 5
+    d_main = 7 if thorough else 5
     d_all = 4 if thorough else 3
     acts = {}
+    # vacuity: TLC's coverage statistics on a one-template world in which every action is enabled (their cost grows with
+    # the size of the worlds literal: 20 s on the worlds below, so the big runs go without)
+    res = run.tlc("MC_Cache", cfg(DEVS, ALL_OPS, WEAK, 3), name="mc-cover", coverage=True, timeout=600,
+                  extra_files={"CacheProgs.tla": progs_module([mcw[1]])}, workers=4)
+    if res.violated:
+        run.spec_violation(res, "TLC: %s violated in Cache.tla (mc-cover)" % res.violated)
+    for a, (dd, g) in res.coverage.items():
+        acts[a] = acts.get(a, 0) + g
+    for a in ("DoRender", "DoInvBody", "DoInvDef", "DoInvClosure", "DoInvalidate", "DoSet", "DoGet", "DoToggle"):
+        if not acts.get(a):
+            raise MachineryError("vacuous model checking: action %s never taken (%s)" % (a, acts))
+    run.extra["tlc_action_coverage"] = acts
     for name, devs, invs, ops, depth, cov in [
-        ("mc-cover", DEVS, WEAK, ALL_OPS, 2, True),          # vacuity check (coverage statistics are expensive: tiny run)
         ("mc-intended", [], STRICT, small_ops, d_main, False),
         ("mc-intended-allops", [], STRICT, ALL_OPS, d_all, False),
         ("mc-ascoded", DEVS, WEAK, small_ops, d_main, False),
@@ -814,12 +842,6 @@ def check(run):
                       extra_files={"CacheProgs.tla": pm}, workers=None if thorough else 8)
         if res.violated:
             run.spec_violation(res, "TLC: %s violated in Cache.tla (%s)" % (res.violated, name))
-        for a, (dd, g) in res.coverage.items():
-            acts[a] = acts.get(a, 0) + g
-    for a in ("DoRender", "DoInvBody", "DoInvDef", "DoInvClosure", "DoInvalidate", "DoSet", "DoGet", "DoToggle"):
-        if not acts.get(a):
-            raise MachineryError("vacuous model checking: action %s never taken (%s)" % (a, acts))
-    run.extra["action_coverage"] = acts
 
     # ------------------------------------------------------------------ 2. deviations of the code: counterexample -> real code
     fw = finding_worlds()
@@ -852,9 +874,14 @@ def check(run):
     # ------------------------------------------------------------------ 3. R: simulate -> replay on real templates
     profiles = [("rec", 14, 10), ("beaker-mem", 8, 6), ("beaker-file", 4, 4), ("dogpile", 6, 5)]   # profile, worlds, behaviours per world
     if thorough:
-        profiles = [(p, n * 4, b * 2) for p, n, b in profiles]
+        profiles = [(p, n * 6, b * 2) for p, n, b in profiles]
+    missing = sorted({p for p, _, _ in profiles if not installed(p)})
+    if missing:
+        run.assumptions.append("backends not installed, not exercised: %s" % ", ".join(missing))
+    profiles = [x for x in profiles if x[0] not in missing]
     replayed = 0
     nc_done = 0
+    op_counts = {}
     for profile, nworlds, per in profiles:
         worlds = [gen_world(rng, profile) for _ in range(nworlds)]
         ops = ALL_OPS if profile == "rec" else [o for o in ALL_OPS if o != "set"]
@@ -875,6 +902,8 @@ def check(run):
             mm = replay_behaviour(states, w, profile, next_hid(), run.scratch)
             replayed += 1
             run.transitions += len(states)
+            for st in states[1:]:
+                op_counts[st["last"]["op"]] = op_counts.get(st["last"]["op"], 0) + 1
             if mm:
                 run.violation("replay:%s:%s" % (mm["op"], mm["clause"]),
                               "real templates (%s backend) disagree with Cache.tla at step %d (%s of %s): expected %s, observed %s"
@@ -905,13 +934,21 @@ def check(run):
                         "history": [st["last"]["op"] for st in states[1:13]]})
     if nc_done == 0 and not run.violations:
         raise MachineryError("no negative control could be run on the replay comparer")
+    # vacuity: every kind of operation of the model was taken by TLC and replayed on the real code
+    # (TLC's -coverage statistics cost ~20 s even on a tiny instance of this spec, so they are not used)
+    if not run.violations:
+        for o in ALL_OPS:
+            if not op_counts.get(o):
+                raise MachineryError("vacuous: operation %s never occurred in the replayed behaviours (%s)" % (o, op_counts))
+    run.extra["action_coverage"] = op_counts
     run.extra["behaviours_replayed"] = replayed
     run.traces += replayed
 
     # ------------------------------------------------------------------ 4. V: record -> validate
     groups = [("rec", 60, 30), ("beaker-mem", 20, 30), ("dogpile", 10, 30)]
     if thorough:
-        groups = [("rec", 400, 30), ("beaker-mem", 120, 30), ("beaker-file", 40, 30), ("dogpile", 80, 30)]
+        groups = [("rec", 800, 30), ("beaker-mem", 200, 30), ("beaker-file", 60, 30), ("dogpile", 120, 30)]
+    groups = [g for g in groups if g[0] not in missing]
     tid = 0
     for gi, (profile, n, n_ops) in enumerate(groups):
         worlds, traces, texts = [], [], {}
@@ -940,11 +977,20 @@ def check(run):
                 b2["events"][rs[-1]]["execs"][0][0] += 1
                 b3 = copy.deepcopy(t); b3["id"] = 10 ** 6 + 3
                 b3["events"][cs[-1]]["calls"][0]["kw"][0][1] = "s:corrupted"
-                b4 = copy.deepcopy(t); b4["id"] = 10 ** 6 + 4
-                del b4["events"][rs[0]]
                 ncs = [b1, b2, b3]
-                # deleting the first render is only a corruption if a later event depends on it
-                if any(e["ev"] == "render" and e["t"] == t["events"][rs[0]]["t"] for e in b4["events"][rs[0]:]):
+                # deleting a render that executed something is a corruption as soon as a later render reports the counters
+                prev, victim = None, None
+                allr = [i for i, e in enumerate(t["events"]) if e["ev"] == "render"]
+                for i in allr:
+                    ex = t["events"][i]["execs"]
+                    changed = any(n for row in ex for n in row) if prev is None else ex != prev
+                    if changed and i != allr[-1]:
+                        victim = i
+                        break
+                    prev = ex
+                if victim is not None:
+                    b4 = copy.deepcopy(t); b4["id"] = 10 ** 6 + 4
+                    del b4["events"][victim]
                     ncs.append(b4)
                 break
         verdicts = _validate(run, traces + ncs, worlds, "trace-%s" % profile, thorough)
